@@ -4,6 +4,8 @@ import GitSizer.Proofs.Config
 import GitSizer.Model.PathResolver
 import GitSizer.Model.Parsers
 import GitSizer.Basic.Sat
+import GitSizer.Model.RefGroups
+import GitSizer.Proofs.Bytes
 /-! The hand-written models of `prefixFilter.Filter` and `configKeyMatchesPrefix` ARE the functions
     regenerated from the source by tools/gostr2lean (in which an out-of-range index or slice is a
     panic): the regenerated functions never panic and return exactly what the models return. -/
@@ -552,5 +554,50 @@ theorem getConfig_regenerated (pfx listing : Bytes) :
   cases parseListing (listing.length + 1) listing with
   | none => rfl
   | some recs => simp [keepEntries]
+
+/-! ## `splitKey` and `parentName` of internal/refopts/ref_group_builder.go, REGENERATED -/
+
+theorem lastIndexOf_lt {c : UInt8} {s : Bytes} {i : Nat} (h : Bytes.lastIndexOf c s = some i) : i < s.length := by
+  unfold Bytes.lastIndexOf at h
+  cases hi : Bytes.indexOf c s.reverse with
+  | none => simp [hi] at h
+  | some j =>
+    simp only [hi, Option.some.injEq] at h
+    have := Bytes.indexOf_lt hi
+    simp only [List.length_reverse] at this
+    omega
+
+/-- **`splitKey` as the source says it**: never panics and equals the model's `Config.splitKey` (at the LAST '.') -/
+theorem splitKey_regenerated (key : Bytes) : Gen.Strs.splitKey key = .ok (Config.splitKey key) := by
+  unfold Gen.Strs.splitKey Config.splitKey Go.lastIndexByteI
+  have hdot : (46 : UInt8) = Config.DOT := rfl
+  rw [hdot]
+  cases h : Bytes.lastIndexOf Config.DOT key with
+  | none => simp [pure]
+  | some i =>
+    have hlt := lastIndexOf_lt h
+    have hne : ((i : Int) == -1) = false := by
+      have : (i : Int) ≠ -1 := by omega
+      simpa using this
+    simp only [hne, Bool.false_eq_true, if_false, pure, bind, Res.bind]
+    rw [sliceI_take key i (by omega)]
+    have e : ((i : Int) + 1) = ((i + 1 : Nat) : Int) := by omega
+    simp only [e]
+    rw [sliceI_from key (i + 1) (by omega)]
+
+/-- **`parentName` as the source says it** equals the model's `RefGroups.parentName` -/
+theorem parentName_regenerated (sym : Bytes) : Gen.Strs.parentName sym = .ok (RefGroups.parentName sym) := by
+  unfold Gen.Strs.parentName RefGroups.parentName Go.lastIndexByteI
+  have hdot : (46 : UInt8) = RefGroups.DOT := rfl
+  rw [hdot]
+  cases h : Bytes.lastIndexOf RefGroups.DOT sym with
+  | none => simp [pure]
+  | some i =>
+    have hlt := lastIndexOf_lt h
+    have hne : ((i : Int) == -1) = false := by
+      have : (i : Int) ≠ -1 := by omega
+      simpa using this
+    simp only [hne, Bool.false_eq_true, if_false, pure, bind, Res.bind]
+    rw [sliceI_take sym i (by omega)]
 
 end GitSizer
